@@ -738,6 +738,15 @@ impl ContextRefOps for ContextRef {
 
 impl Drop for Context {
     fn drop(&mut self) {
+        // a connection that goes away before its request was served (failed or aborted handshake)
+        // never reached a terminal state: record it as failed
+        if !matches!(
+            self.state(),
+            ContextState::Terminated | ContextState::ErrorOccured
+        ) {
+            self.set_state(ContextState::ErrorOccured)
+                .set_error("connection closed before the request completed".to_owned());
+        }
         trace!("Context dropped: {}", self);
         self.state.gc_list.lock().unwrap().push(self.props.clone());
     }
